@@ -5,6 +5,7 @@ import PMV.Driver.Fold
 import PMV.Driver.Strings
 import PMV.Driver.Rename
 import PMV.Driver.Minify
+import PMV.Driver.PyCore
 open PMV
 
 def dispatch (cmd : String) (args : List Sexp) : Option String :=
@@ -18,6 +19,7 @@ def dispatch (cmd : String) (args : List Sexp) : Option String :=
   | "unparse.expr" => Driver.Printer.unparseExpr args
   | "canon" => Driver.Minify.canon args
   | "transform" => Driver.Minify.transform args
+  | "pycore.run" => Driver.PyCore.runCmd args
   | "hoist.place" => Driver.Rename.hoistPlace args
   | "rename.assign" => Driver.Rename.assignCmd args
   | "ministring" => Driver.Strings.ministring args
